@@ -375,7 +375,7 @@ pub fn run(tier: Tier, seed: u64, replay: Option<&std::path::Path>) -> i32 {
         30,
         strategy,
         run_case,
-        "generator programs producing 0..5 strings (incl. the empty string and multi-byte text) as a single value, a bare list value, an `each` stream or a range stream, watched for 1 or 2 lifecycles (real 1 s restarts); `.spawn` without content; `.spawn` for a running name; duplex echo generators with 0..6 `.send` frames addressed to the generator, to the same name in another context, or to another name, interleaved with unrelated traffic, closed by a final send. Oracle per spawn id: frames with that source_id match (start recv{k} stop)+ with the k contents equal to the produced strings in order, all in the spawn's context; a refused spawn yields exactly one `.spawn.error` with source_id and reason; duplex: exactly one `.recv` per send addressed to this instance, in order, none for foreign sends. Non-trivial = >= 2 strings over >= 2 lifecycles, or duplex with >= 3 own sends. Distinct by case hash.",
+        "generator programs producing 0..5 strings (incl. the empty string and multi-byte text) as a single value, a bare list value, an `each` stream, a range stream or a pipeline ending in `| ignore`, watched for 1 to 3 lifecycles (real 1 s restarts); `.spawn` without content, followed by a valid spawn of the same name which must run; `.spawn` for a running name; a duplex generator that ends after one input and is restarted; duplex echo generators with 0..6 `.send` frames addressed to the generator, to the same name in another context, or to another name, interleaved with unrelated traffic, closed by a final send. Oracle per spawn id: frames with that source_id match (start recv{k} stop)+ with the k contents equal to the produced strings in order, all in the spawn's context; a refused spawn yields exactly one `.spawn.error` with source_id and reason; duplex: exactly one `.recv` per send addressed to this instance, in order, none for foreign sends. Non-trivial = >= 2 strings over >= 2 lifecycles, or duplex with >= 3 own sends. Distinct by case hash.",
         vec![
             "generator programs produce strings (other value types are outside the statement)".to_string(),
             "programs come from four templates, not from the nu grammar".to_string(),
